@@ -28,6 +28,11 @@ func envOr(k, d string) string {
 }
 
 // buildOverlay maps harness sources into the repository tree (nothing is written under /repo).
+// overlayFiles, when non-nil, restricts the harness files injected per harness directory
+// (relative to harness/repo) to the listed base names: a check then does not depend on harness
+// files of other checks compiling against the current tree.
+var overlayFiles map[string]map[string]bool
+
 func buildOverlay() (map[string][]byte, error) {
 	ov := map[string][]byte{}
 	root := filepath.Join(verifDir, "harness")
@@ -44,7 +49,11 @@ func buildOverlay() (map[string][]byte, error) {
 		case strings.HasPrefix(rel, "verifrt/"):
 			ov[filepath.Join(repoDir, "app", rel)] = b
 		case strings.HasPrefix(rel, "repo/"):
-			ov[filepath.Join(repoDir, strings.TrimPrefix(rel, "repo/"))] = b
+			sub := strings.TrimPrefix(rel, "repo/")
+			if allow, ok := overlayFiles[filepath.Dir(sub)]; ok && !allow[filepath.Base(sub)] {
+				return nil
+			}
+			ov[filepath.Join(repoDir, sub)] = b
 		}
 		return nil
 	})
